@@ -129,6 +129,8 @@ func hPS(p *S) *S { return p }
 func hInts(xs []int) []int { return xs }
 func hVar(xs ...int) int { return len(xs) }
 func hPair(a, b int) int { return a + b }
+func hM2(a int) (int, map[string]int) { return a, map[string]int{gStr: a} }
+func hMS2(s string) (bool, map[string]string) { return s != "", map[string]string{s: s} }
 func hPairS(a, b string) string { return a + b }
 
 func useInt(a int)       { gInt = a }
@@ -448,6 +450,26 @@ func (g *fgen) stmt() {
 			g.block(1 + r.Intn(3))
 		}
 		g.line("}")
+	case k < 52 && g.depth < 3: // do-while: a single block that is its own successor
+		g.count("s:do-while")
+		vs := g.varsOf(tInt)
+		ss := g.varsOf(tStr)
+		g.line("for {")
+		g.depth++
+		if len(vs) > 0 {
+			v := vs[r.Intn(len(vs))]
+			g.line("%s = %s", v, g.expr(tInt, 1))
+		}
+		if len(ss) > 0 {
+			v := ss[r.Intn(len(ss))]
+			g.line("%s = %s", v, g.expr(tStr, 1))
+		}
+		g.line("useInt(%s)", g.expr(tInt, 1))
+		g.line("if %s {", g.expr(tBool, 1))
+		g.line("\tbreak")
+		g.line("}")
+		g.depth--
+		g.line("}")
 	case k < 56 && g.depth < 3: // counted loop
 		g.count("s:for")
 		i := g.fresh()
@@ -553,7 +575,21 @@ func (g *fgen) stmt() {
 		g.line("_, _ = %s, %s", v, ok)
 	case k < 73: // multi-result calls
 		a, b2 := g.fresh(), g.fresh()
-		if r.Intn(2) == 0 {
+		if r.Intn(3) == 0 {
+			// a map that is result #1 of a call, read with the comma-ok form (and plainly)
+			g.count("s:call2-map-commaok")
+			v, ok := g.fresh(), g.fresh()
+			if r.Intn(2) == 0 {
+				g.line("%s, %s := hM2(%s)", a, b2, g.expr(tInt, 1))
+				g.line("%s, %s := %s[%s]", v, ok, b2, g.expr(tStr, 0))
+				g.env = append(g.env, gvar{a, tInt}, gvar{b2, tMapSI}, gvar{v, tInt}, gvar{ok, tBool})
+			} else {
+				g.line("%s, %s := hMS2(%s)", a, b2, g.expr(tStr, 1))
+				g.line("%s, %s := %s[%s]", v, ok, b2, g.expr(tStr, 0))
+				g.env = append(g.env, gvar{a, tBool}, gvar{b2, tMapSS}, gvar{v, tStr}, gvar{ok, tBool})
+			}
+			g.line("_, _, _, _ = %s, %s, %s, %s", a, b2, v, ok)
+		} else if r.Intn(2) == 0 {
 			g.count("s:call2")
 			g.line("%s, %s := h2(%s)", a, b2, g.expr(tInt, 1))
 			g.env = append(g.env, gvar{a, tInt}, gvar{b2, tStr})
@@ -710,7 +746,22 @@ func genFunc(r *rand.Rand, name string, size int, stats map[string]int) (src str
 	} else if nr > 1 {
 		res = " (" + strings.Join(rs, ", ") + ")"
 	}
+	firstIf := ""
+	if r.Intn(6) == 0 {
+		// `if p` on a bool parameter as the very first instruction of the function
+		pn := fmt.Sprintf("p%d", np)
+		ps = append(ps, pn+" bool")
+		zs = append(zs, "false")
+		g.env = append(g.env, gvar{pn, tBool})
+		firstIf = pn
+	}
 	fmt.Fprintf(&sb, "func %s(%s)%s {\n", name, strings.Join(ps, ", "), res)
+	if firstIf != "" {
+		g.count("s:first-if-on-param")
+		g.line("if %s {", firstIf)
+		g.block(1 + r.Intn(2))
+		g.line("}")
+	}
 	for i := 0; i < size && g.budget > 0; i++ {
 		g.stmt()
 	}
